@@ -175,20 +175,36 @@ def loopback_table(chk, prog, cfg):
     if not b:
         return
     sets = b.calls_to(r"SocketAddr::set_ip$")
-    chk.floor("set_ip sites", len(sets), 2)
+    chk.floor("set_ip sites", len(sets), 1)
+    # every IpAddr built in this function (the values set_ip can receive), with the guards of the block that builds it
     seenv = {}
-    for blk, t in sets:
-        d = core.describe(prog, b, t["args"][1])
-        gs = core.guards_dominating(prog, b, blk)
+    built = []
+    for bi, blk_ in enumerate(b.blocks):
+        for st_ in blk_["stmts"]:
+            rv = st_.get("rv")
+            if rv and rv.get("k") == "agg" and rv.get("adt", "").endswith("net::IpAddr") and rv.get("variant") in ("V4", "V6"):
+                built.append((bi, rv["variant"], core.describe(prog, b, rv["ops"][0])))
+    chk.floor("loopback address constructions", len(built), 2)
+
+    def is_loopback(fam_, d):
+        if d[0] == "call" and d[1].endswith("Ipv4Addr::new" if fam_ == "V4" else "Ipv6Addr::new"):
+            nums = [x[1] for x in d[2] if x[0] == "lit"]
+            return nums == ([127, 0, 0, 1] if fam_ == "V4" else [0, 0, 0, 0, 0, 0, 0, 1])
+        txt = str(d)
+        return ("Ipv4Addr::LOCALHOST" in txt) if fam_ == "V4" else ("Ipv6Addr::LOCALHOST" in txt)
+    for bi, fam_, d in built:
+        gs = core.guards_dominating(prog, b, bi)
         unspec = any(lab == "true" and desc_contains(dd, lambda y: y[0] == "call" and y[1].endswith("is_unspecified")) for s, lab, dd, info in gs)
         fam = [lab for s, lab, dd, info in gs if lab in ("V4", "V6")]
-        chk.ob("R3.loopback", fn, f"set_ip only for unspecified addresses [{fam}]", unspec, "a specific bind address is rewritten", where=b.where(blk), cfg=cfg)
-        if d[0] == "variant" and d[2] in ("V4", "V6") and d[3] and d[3][0][0] == "call":
-            nums = [x[1] for x in d[3][0][2] if x[0] == "lit"]
-            seenv[d[2]] = nums
-            want = [127, 0, 0, 1] if d[2] == "V4" else [0, 0, 0, 0, 0, 0, 0, 1]
-            chk.ob("R3.loopback", fn, f"{d[2]} unspecified -> loopback of the same family", nums == want and fam == [d[2]],
-                   f"under arm {fam} the address is set to {d[2]}({nums})", where=b.where(blk), cfg=cfg)
+        chk.ob("R3.loopback", fn, f"set_ip only for unspecified addresses [{fam}]", unspec, "a specific bind address is rewritten", where=b.where(bi), cfg=cfg)
+        seenv[fam_] = d
+        chk.ob("R3.loopback", fn, f"{fam_} unspecified -> loopback of the same family", is_loopback(fam_, d) and set(fam) == {fam_},
+               f"under arm {fam} the address is set to {fam_}({core.short(str(d))[:60]})", where=b.where(bi), cfg=cfg)
+    for blk, t in sets:
+        d = core.describe(prog, b, t["args"][1])
+        only_built = desc_contains(d, lambda y: y[0] == "variant" and y[1].endswith("net::IpAddr")) and \
+            not desc_contains(d, lambda y: y[0] == "param")
+        chk.ob("R3.loopback", fn, "set_ip receives only the loopback addresses built here", only_built, f"set_ip({core.short(str(d))[:100]})", where=b.where(blk), cfg=cfg)
     chk.ob("R3.loopback", fn, "both families handled", set(seenv) == {"V4", "V6"}, f"handled {sorted(seenv)}", cfg=cfg)
     ports = b.calls_to(r"SocketAddr::set_port$")
     chk.ob("R3.loopback", fn, "port preserved", not ports, "the port is rewritten", cfg=cfg)
